@@ -262,7 +262,8 @@ def judge_chunks(work, rep, c, trace, events, chunk=120000):
     out, p = None, None
     with open(trace) as f:
         for line in f:
-            if out is None or (n - start >= chunk and line.startswith('{"e":"reset"')):
+            # (a run of several phases - each phase begins with its own reset event - is never split: the judge compares its phases)
+            if out is None or (n - start >= chunk and line.startswith('{"e":"reset"') and '"phase":0,' in line):
                 if out is not None:
                     out.close()
                     for fl in judge(work, rep, c, p, name="judge%d" % part):
